@@ -420,15 +420,33 @@ def behaviours_of(events):
     return out
 
 
-def report_trace_violations(chk, res, events, script_lines=None, label=""):
-    """turn VERIF_RESULT violations into reports; the replay file holds the failing behaviour"""
+def report_trace_violations(chk, res, events, script_lines=None, label="", behaviours=None, harness=None):
+    """turn VERIF_RESULT violations into reports; the replay file holds the failing behaviour: its script (lines "SCRIPT ...",
+    when the driver's reset events carry the behaviour ordinal `bi` and the scripted behaviours are given) and the recorded events"""
     behs = behaviours_of(events)
     for v in res.get("viol", []):
         l = v["l"]
         beh = next((b for b in reversed(behs) if b[0] <= l), behs[0])
         lines = ["# failing event (trace line %d): %s" % (l, json.dumps(v.get("detail")))]
+        bi = beh[1][0].get("bi") if beh[1] else None
+        if behaviours is not None and bi and 1 <= bi <= len(behaviours):
+            lines.append("# harness=%s label=%s" % (harness or "", label))
+            lines += ["SCRIPT " + ln for ln in behaviours[bi - 1]]
         lines += [json.dumps(e) for e in beh[1][: l - beh[0] + 1]]
         clauses = v["clause"] if isinstance(v["clause"], list) else [v["clause"]]
         for cl in clauses:
             chk.report(cl, "%s contract clause %s fails on a recorded execution%s" % (chk.pid, cl, (" (" + label + ")") if label else ""),
                        lines, replay_name=cl)
+
+
+def read_replay(path):
+    """(harness name, script lines) of a replay file written by report_trace_violations"""
+    harness, lines = "", []
+    for x in open(path):
+        if x.startswith("# harness="):
+            harness = x[len("# harness="):].split()[0] if len(x.strip()) > len("# harness=") else ""
+        elif x.startswith("SCRIPT "):
+            lines.append(x[len("SCRIPT "):].rstrip("\n"))
+    if not lines:
+        raise MachineryError("replay file %s carries no script (SCRIPT lines)" % path)
+    return harness, lines
